@@ -557,11 +557,56 @@ Definition finalize (new dirty deleted : list nat) : M :=
          lift (fun st => fold_left (fun s o => commit_one o s) other st) ;;
          lift (fun st => set_snew st (filter (fun o => negb (mem o other)) (snew st)))).
 
+Definition head_nested (st : sess) : bool := match stack st with f :: _ => fnested f | [] => false end.
+
+(* does the unit of work emit a statement for this entry: an UPDATE only with a net change *)
+Definition emits (s : stmt) (st : sess) : bool :=
+  match s with
+  | SUpd o => upd_sets_id (objs st o) || upd_sets_v (objs st o)
+  | _ => true
+  end.
+(* will this entry first SELECT the primary key of an expired object *)
+Definition needs_load (st : sess) (s : stmt) : bool :=
+  match s with
+  | SUpd o => emits s st && needs_pk_load (objs st o)
+  | SDel o => needs_pk_load (objs st o)
+  | SIns _ => false
+  end.
+(* persistence collects the parameters of a whole batch (all DELETEs; the UPDATEs with the same SET clause,
+   and one more) before it executes the batch, so the primary-key SELECTs of later entries may come
+   BEFORE a failing statement.  After a failure inside a savepoint (where unflushed objects are not
+   expired) that order would be visible: not modelled. *)
+Definition fail_at (c : Z) (rest : list stmt) : M := fun st =>
+  if head_nested st && existsb (needs_load st) rest then (Unmodelled, st) else (Err c, st).
+
+(* the statements of a flush with a crash oracle (C32; [k] = None: no injected failure).  [k] = Some n:
+   n more INSERT/UPDATE/DELETE succeed, the next one is reported as failed by the driver (error [c]) after
+   it ran.  The rowcount check (StaleDataError) comes after the driver call. *)
+Fixpoint exec_f (k : option nat) (c : Z) (l : list stmt) : M := fun st =>
+  match l with
+  | [] => (Ok, st)
+  | s :: r =>
+      let e := emits s st in
+      match do_stmt s st with
+      | (Ok, st') =>
+          if e then match k with
+                    | Some O => fail_at c r st'
+                    | Some (S k') => exec_f (Some k') c r st'
+                    | None => exec_f None c r st'
+                    end
+          else exec_f k c r st'
+      | (Err c', st') =>
+          if e && Z.eqb c' E_STALE && match k with Some O => true | _ => false end then fail_at c r st'
+          else fail_at c' r st'
+      | x => x
+      end
+  end.
+
 (* UOWTransaction.execute + finalize inside the subtransaction *)
 Definition flush_exec (new dirty deleted : list nat) : M :=
   provision ;;
   foldM (organize_pending deleted) new ;;
-  withst (fun st0 => foldM do_stmt (stmts_of st0 new dirty deleted)) ;;
+  withst (fun st0 => exec_f None 0 (stmts_of st0 new dirty deleted)) ;;
   finalize new dirty deleted.
 
 (* the error path of Session._flush: transaction.rollback(_capture_exception=True) of the subtransaction *)
@@ -570,7 +615,6 @@ Definition head_db_rollback : M := fun st =>
   | [] => (Unmodelled, st)
   | f :: _ => if fconn f then (if fnested f then db_rollback_to (fid f) st else (Ok, db_rollback st)) else (Ok, st)
   end.
-Definition head_nested (st : sess) : bool := match stack st with f :: _ => fnested f | [] => false end.
 Definition flush_fail : M :=
   head_db_rollback ;;
   lift (set_head_state DEACTIVE) ;;
